@@ -8,8 +8,6 @@ import (
 	"reflect"
 	"strings"
 
-	"golang.org/x/tools/go/cfg"
-
 	"osmcheck/core"
 )
 
@@ -17,25 +15,28 @@ func init() {
 	register(&core.Property{
 		ID:    "C08",
 		Title: "PBF skip flags and filters select an unmodified subsequence",
-		Explanation: "Structural necessary conditions, decided on every path of the group/dense decoding functions: " +
-			"(O1) ownership typestate: an element pointer that has been appended to the block's object slice is never written through again (directly, by re-slicing its slices, or by a callee that writes through its parameter) until the variable has been re-pointed at a fresh allocation — checked as a may-escaped dataflow fixpoint over the CFG, loop heads included; " +
-			"(O2) a rejected element is reset by assigning a complete struct literal, and the only things carried over are [:0] re-slices of slices of that same (still owned) element; " +
-			"(O3) the group field numbers 2/3/4 (dense, ways, relations in the descriptor) are guarded by SkipNodes/SkipWays/SkipRelations respectively, each decodes into the element type of its kind, applies that kind's filter to the decoded element after decoding and before appending, and a skipped field is passed over with Skip(); " +
+		Explanation: "Structural necessary conditions, decided on every path of the group/dense decoding functions; anchors are roles from the typed decoding model (which read executes under which field number of the PrimitiveGroup message, which field is the object slice the decode entry point returns), conditions are decided through guard facts and finite-domain evaluation, static calls inside the package are followed: " +
+			"(O1) ownership typestate: an element that has been appended to the block's object slice (directly or by a helper) is never written through again (directly, by re-slicing its slices, or by a callee, which is executed on its own CFG) until the variable has been re-pointed at a fresh allocation — a may-state fixpoint over the CFG, loop heads included; " +
+			"(O2) a rejected element never carries fields into the next one: an element that was decoded into and not handed to the consumer is, before anything is decoded into it in a later iteration of the element loop, completely reset by assigning a whole struct literal (in place or in a helper) whose values are constants (Visible: true among them) or [:0] re-slices of that element's own slice of the same field; " +
+			"(O3) the message data of group field 2/3/4 (dense, ways, relations in the descriptor) is read only under a false SkipNodes/SkipWays/SkipRelations respectively and under no other condition; the elements of a kind are appended iff that kind's filter is nil or accepts the appended element (decision table evaluated on the CFG), the filter being applied after the element was decoded; every cycle of the group loop consumes the current field or leaves; " +
 			"(O4) skip flags and filters are never written inside the package; " +
-			"(O5) slices of element parts (tags, way nodes, members) kept for reuse are only ever re-sliced to [:0], extended by append of whole elements, or replaced by a zeroed make, so stale contents of a rejected element cannot reappear in a later one. " +
+			"(O5) slices of element parts (tags, way nodes, members) kept for reuse are only ever re-sliced to [:0], extended by append of whole elements, or replaced by a zeroed make (possibly through an allocation helper), so stale contents of a rejected element cannot reappear in a later one. " +
+			"(O6) every cycle of the loop in which a worker receives blocks sends one result pair (or is taken under cancellation): the result of a fully skipped or fully rejected block is not dropped, so the round-robin serializer stays in step and the selection is a subsequence in file order. " +
 			"NOT decided: value equality with the unfiltered scan (needs C01), what user filters do with the element they are handed.",
 		Assumptions: []string{"go/types, go/cfg (x/tools v0.29.0)", "append on the block's object slice stores the pointer (no copy of the element)", "user filter functions do not retain or mutate rejected elements"},
 		LevelText:   "Structural necessary conditions of 'returned objects are never modified afterwards although rejected memory is reused' and of the skip/filter selection: a may-escaped typestate analysis over the decoding functions' CFGs plus the flag/kind/filter wiring table.",
 		LevelNote:   "Trusts the type checker and go/cfg; callee write effects are summarised syntactically inside package osmpbf; user callbacks are assumed not to mutate.",
-		Technique:   "typestate (owned/escaped) abstract interpretation over go/cfg with callee write summaries + descriptor-keyed wiring table",
+		Technique:   "typestate (clean/dirty/stale/escaped) abstract interpretation over go/cfg with callees inlined + descriptor-keyed wiring decided by guard facts and decision-table evaluation",
 		DesignRef:   "DESIGN.md §5 C08",
 		Rules: []*core.Rule{
 			{ID: "O1", Floor: 3, Doc: "no write through an element after it was appended to the object slice", Run: c08O1},
 			{ID: "O2", Floor: 3, Doc: "rejected elements are fully reset; only [:0] re-slices of owned slices survive", Run: c08O2},
 			{ID: "O3", Floor: 8, Doc: "skip flag, decoded kind and filter agree per group field; skipped fields are passed over", Run: c08O3},
 			{ID: "O4", Floor: 6, Doc: "flags and filters are read-only inside the package", Run: c08O4},
-			{ID: "O5", Floor: 8, Doc: "reused element storage is never re-exposed: element slices are only re-sliced to [:0], grown by append of whole elements, or replaced by make", Run: c08O5},
+			{ID: "O6", Floor: 1, Doc: "a worker forwards one result per block it receives, however few elements the skip flags and filters leave", Run: c08O6},
+			{ID: "O5", Floor: 5, Doc: "reused element storage is never re-exposed: element slices are only re-sliced to [:0], grown by append of whole elements, or replaced by make", Run: c08O5},
 		},
+		Benign: append(append([]core.Mutant{}, c08Benign...), c08Benign2...),
 		Mutants: []core.Mutant{
 			{Name: "way-not-renewed-after-append", File: "osmpbf/decode_data.go", Find: "\t\t\t\tdec.q = append(dec.q, way)\n\t\t\t\tway = &osm.Way{Visible: true}\n", Replace: "\t\t\t\tdec.q = append(dec.q, way)\n", ExpectRule: "O1", ExpectConstruct: "way"},
 			{Name: "relation-renewed-before-append-only", File: "osmpbf/decode_data.go", Find: "\t\t\t\tdec.q = append(dec.q, relation)\n\t\t\t\trelation = &osm.Relation{Visible: true}\n", Replace: "\t\t\t\tdec.q = append(dec.q, relation)\n\t\t\t\trelation.Tags = relation.Tags[:0]\n\t\t\t\trelation = &osm.Relation{Visible: true}\n", ExpectRule: "O1", ExpectConstruct: "relation"},
@@ -51,6 +52,7 @@ func init() {
 			{Name: "skipped-field-not-skipped", File: "osmpbf/decode_data.go", Find: "\t\t\tcontinue\n\t\t}\n\n\t\tmsg.Skip()\n\t}\n\n\treturn msg.Err()\n}\n\nfunc (dec *dataDecoder) scanDenseNodes", Replace: "\t\t\tcontinue\n\t\t}\n\n\t\tif fn > 4 {\n\t\t\tmsg.Skip()\n\t\t}\n\t}\n\n\treturn msg.Err()\n}\n\nfunc (dec *dataDecoder) scanDenseNodes", ExpectRule: "O3", ExpectConstruct: "skip"},
 			{Name: "way-nodes-regrown", File: "osmpbf/decode_data.go", Find: "way.Nodes = make(osm.WayNodes, dec.wlats.Count(protoscan.WireTypeVarint))", Replace: "if n := dec.wlats.Count(protoscan.WireTypeVarint); n <= cap(way.Nodes) {\n\t\t\t\t\tway.Nodes = way.Nodes[:n]\n\t\t\t\t} else {\n\t\t\t\t\tway.Nodes = make(osm.WayNodes, n)\n\t\t\t\t}", ExpectRule: "O5", ExpectConstruct: "scanWays"},
 			{Name: "tags-regrown", File: "osmpbf/decode_data.go", Find: "\t\t\tif cap(n.Tags) < count/2 {\n\t\t\t\tn.Tags = make(osm.Tags, 0, count/2)\n\t\t\t}", Replace: "\t\t\tif cap(n.Tags) < count/2 {\n\t\t\t\tn.Tags = make(osm.Tags, 0, count/2)\n\t\t\t} else if count == 0 {\n\t\t\t\tn.Tags = n.Tags[:cap(n.Tags)]\n\t\t\t}", ExpectRule: "O5", ExpectConstruct: "extractDenseNodes"},
+			{Name: "empty-block-result-dropped", File: "osmpbf/decode.go", Find: "\t\t\t\t\tobjects, err := dd.Decode(p.Blob)\n", Replace: "\t\t\t\t\tobjects, err := dd.Decode(p.Blob)\n\t\t\t\t\tif err == nil && len(objects) == 0 {\n\t\t\t\t\t\tcontinue\n\t\t\t\t\t}\n", ExpectRule: "O6", ExpectConstruct: "one result per block"},
 			{Name: "flag-written", File: "osmpbf/decode_data.go", Find: "\tway := &osm.Way{Visible: true}\n\trelation := &osm.Relation{Visible: true}\n", Replace: "\tway := &osm.Way{Visible: true}\n\trelation := &osm.Relation{Visible: true}\n\tif dec.scanner.FilterRelation == nil {\n\t\tdec.scanner.SkipRelations = false\n\t}\n", ExpectRule: "O4", ExpectConstruct: "SkipRelations"},
 		},
 	})
@@ -62,29 +64,41 @@ type c08Elem struct {
 	obj types.Object
 }
 
-// c08Tracked finds, per function of the worker role, the pointer-to-element locals/params that are appended to the object slice.
-func c08Tracked(m *pbfModel, qField *types.Var) []c08Elem {
+// c08Tracked finds, per function of the worker role, the pointer-to-element locals/params that are handed to the
+// consumer there: appended to the object slice directly or through a call of a function of the package that does.
+func c08Tracked(r *core.R, m *pbfModel, qField *types.Var) []c08Elem {
 	info := m.info
+	fl := &c08Flow{r: r, m: m, info: info, q: qField, memo: map[string]int{}, stack: map[string]bool{}}
 	var out []c08Elem
-	for _, u := range m.sortedUnits() {
-		fd, ok := u.node.(*ast.FuncDecl)
-		if !ok || !u.roles["worker"] {
-			continue
-		}
+	for _, fi := range c01RoleFuncs(m, "worker") {
+		f := c01FnOf(r.P, fi)
 		seen := map[types.Object]bool{}
-		ast.Inspect(fd.Body, func(n ast.Node) bool {
-			as, ok := n.(*ast.AssignStmt)
-			if !ok || len(as.Lhs) != 1 || fieldOf(info, as.Lhs[0]) != qField {
+		// candidates: local variables and parameters of pointer-to-element type
+		ast.Inspect(fi.Decl, func(n ast.Node) bool {
+			id, ok := n.(*ast.Ident)
+			if !ok {
 				return true
 			}
-			call, ok := as.Rhs[0].(*ast.CallExpr)
-			if !ok || builtinName(info, call) != "append" {
+			o := info.Defs[id]
+			if o == nil || seen[o] {
 				return true
 			}
-			for _, a := range call.Args[1:] {
-				if o := objOf(info, a); o != nil && !seen[o] {
-					seen[o] = true
-					out = append(out, c08Elem{u.fi, o})
+			if v, isVar := o.(*types.Var); !isVar || v.IsField() {
+				return true
+			}
+			if _, isPtr := o.Type().(*types.Pointer); !isPtr || !c08IsElemType(o.Type()) {
+				return true
+			}
+			seen[o] = true
+			for _, b := range f.g.Blocks {
+				if !b.Live {
+					continue
+				}
+				for _, nd := range b.Nodes {
+					if fl.escapes(f, nd, o, 0) {
+						out = append(out, c08Elem{fi, o})
+						return true
+					}
 				}
 			}
 			return true
@@ -93,24 +107,27 @@ func c08Tracked(m *pbfModel, qField *types.Var) []c08Elem {
 	return out
 }
 
-// c08QField resolves the object slice field (as in C02.Q3).
+// c08IsElemType: (pointer to) osm.Node / osm.Way / osm.Relation.
+func c08IsElemType(t types.Type) bool {
+	switch namedPath(t) {
+	case core.ModulePath + ".Node", core.ModulePath + ".Way", core.ModulePath + ".Relation":
+		return true
+	}
+	return false
+}
+
+// c08QField resolves the object slice: the field of the per-worker decoder that the decode entry point returns.
 func c08QField(r *core.R, m *pbfModel) *types.Var {
 	info := m.info
-	var entry *FuncInfo
-	for _, fn := range m.units[m.goOf("worker").lit].calls {
-		sig := fn.Type().(*types.Signature)
-		if sig.Recv() != nil && namedPath(sig.Recv().Type()) == namedPath(m.ddT) && sig.Results().Len() == 2 {
-			entry = findFunc(m.pk, funcName(fn))
-		}
-	}
+	entry := c01DecodeEntry(m)
 	if entry == nil {
-		r.Anchor("decode entry point called by the worker")
+		r.Anchor("decode entry point of the per-worker decoder")
 		return nil
 	}
 	var q *types.Var
 	ast.Inspect(entry.Decl.Body, func(n ast.Node) bool {
 		if ret, ok := n.(*ast.ReturnStmt); ok && len(ret.Results) == 2 {
-			if f := fieldOf(info, ret.Results[0]); f != nil {
+			if f := fieldOf(info, c01Expand(info, entry.Decl.Body, ret.Results[0])); f != nil {
 				q = f
 			}
 		}
@@ -150,12 +167,12 @@ func c08WritesThroughParam(m *pbfModel, fn *types.Func, idx int, depth int) bool
 		switch s := n.(type) {
 		case *ast.AssignStmt:
 			for _, l := range s.Lhs {
-				if _, isId := ast.Unparen(l).(*ast.Ident); !isId && rootObj(info, l) == po {
+				if _, isId := ast.Unparen(l).(*ast.Ident); !isId && c01RootObj(info, l) == po {
 					w = true
 				}
 			}
 		case *ast.IncDecStmt:
-			if _, isId := ast.Unparen(s.X).(*ast.Ident); !isId && rootObj(info, s.X) == po {
+			if _, isId := ast.Unparen(s.X).(*ast.Ident); !isId && c01RootObj(info, s.X) == po {
 				w = true
 			}
 		case *ast.CallExpr:
@@ -172,8 +189,42 @@ func c08WritesThroughParam(m *pbfModel, fn *types.Func, idx int, depth int) bool
 	return w
 }
 
+// c08Analyse runs the typestate analysis for every tracked element variable (cached per program).
+type c08Result struct {
+	el    c08Elem
+	o1    string
+	o1pos token.Pos
+	o2    string
+	o2pos token.Pos
+	nblk  int
+}
+
+var c08Cache = map[*core.Program][]c08Result{}
+
+func c08Analyse(r *core.R, m *pbfModel, q *types.Var) []c08Result {
+	if res, ok := c08Cache[r.P]; ok {
+		return res
+	}
+	var res []c08Result
+	for _, el := range c08Tracked(r, m, q) {
+		// a parameter that is merely handed on (an "emit" helper) is analysed from its callers
+		if c01ParamIndex(m.info, el.fi, el.obj) >= 0 && !c08WritesThroughParam(m, el.fi.Obj, c01ParamIndex(m.info, el.fi, el.obj), 0) {
+			continue
+		}
+		fl := &c08Flow{r: r, m: m, info: m.info, q: q, memo: map[string]int{}, stack: map[string]bool{}}
+		entry := c08C
+		if c01ParamIndex(m.info, el.fi, el.obj) >= 0 {
+			entry = c08C | c08D
+		}
+		fl.run(el.fi, el.obj, entry, true, 0)
+		res = append(res, c08Result{el: el, o1: fl.o1, o1pos: fl.o1pos, o2: fl.o2, o2pos: fl.o2pos, nblk: fl.nblk})
+	}
+	c08Cache[r.P] = res
+	return res
+}
+
 func c08O1(r *core.R) {
-	m := modelOrAnchor(r)
+	m := c01PBFModel(r)
 	if m == nil {
 		return
 	}
@@ -181,122 +232,33 @@ func c08O1(r *core.R) {
 	if q == nil {
 		return
 	}
-	info := m.info
-	for _, el := range c08Tracked(m, q) {
-		c := "typestate@" + el.fi.Name() + " " + el.obj.Name()
-		g := newCFG(info, el.fi.Decl.Body)
-		// state per block entry: may-escaped?
-		in := map[*cfg.Block]bool{}
-		visited := map[*cfg.Block]bool{}
-		var violation string
-		var vpos token.Pos
-		// transfer over the nodes of a block
-		step := func(n ast.Node, esc bool) bool {
-			ast.Inspect(n, func(x ast.Node) bool {
-				switch s := x.(type) {
-				case *ast.FuncLit:
-					return false
-				case *ast.AssignStmt:
-					// effects of the RHS first (calls), then the LHS
-					for _, rh := range s.Rhs {
-						esc = c08CallEffects(r, m, rh, el.obj, esc, &violation, &vpos)
-					}
-					for i, l := range s.Lhs {
-						lu := ast.Unparen(l)
-						if id, ok := lu.(*ast.Ident); ok && (info.Uses[id] == el.obj || info.Defs[id] == el.obj) {
-							// x = ...
-							if i < len(s.Rhs) || len(s.Rhs) == 1 {
-								rh := s.Rhs[min(i, len(s.Rhs)-1)]
-								if c08IsFreshAlloc(info, rh, el.obj) {
-									if esc && usesObj(info, rh, el.obj) {
-										violation, vpos = "`"+src(r.P.Fset, s)+"` builds the replacement from slices of the element that was already handed to the consumer", s.Pos()
-									}
-									esc = false
-								} else if call, ok := rh.(*ast.CallExpr); ok && c08ReturnsParam(m, call, el.obj) {
-									// x, err = f(.., x): same object, state unchanged
-								} else {
-									violation, vpos = "`"+src(r.P.Fset, s)+"` re-points the element variable at something that is not a fresh allocation", s.Pos()
-								}
-							}
-							continue
-						}
-						if rootObj(info, l) == el.obj {
-							// write through x
-							if esc {
-								violation, vpos = "`"+src(r.P.Fset, s)+"` writes through `"+el.obj.Name()+"` after it was appended to the block's object slice", s.Pos()
-							}
-						}
-						// dec.q = append(dec.q, x)
-						if fieldOf(info, l) == q && i < len(s.Rhs) {
-							if call, ok := s.Rhs[i].(*ast.CallExpr); ok && builtinName(info, call) == "append" {
-								for _, a := range call.Args[1:] {
-									if objOf(info, a) == el.obj {
-										esc = true
-									}
-								}
-							}
-						}
-					}
-					return false
-				case *ast.IncDecStmt:
-					if rootObj(info, s.X) == el.obj && esc {
-						if _, isId := ast.Unparen(s.X).(*ast.Ident); !isId {
-							violation, vpos = "`"+src(r.P.Fset, s)+"` writes through the escaped element", s.Pos()
-						}
-					}
-				case *ast.ExprStmt:
-					esc = c08CallEffects(r, m, s.X, el.obj, esc, &violation, &vpos)
-					return false
-				}
-				return true
-			})
-			return esc
-		}
-		work := []*cfg.Block{g.Blocks[0]}
-		in[g.Blocks[0]] = false
-		for len(work) > 0 {
-			b := work[len(work)-1]
-			work = work[:len(work)-1]
-			esc := in[b]
-			for _, n := range b.Nodes {
-				esc = step(n, esc)
-			}
-			for _, s := range b.Succs {
-				if !visited[s] || (esc && !in[s]) {
-					visited[s] = true
-					in[s] = in[s] || esc
-					work = append(work, s)
-				}
-			}
-		}
-		if violation != "" {
-			r.Bad(c, vpos, "%s: an object the scanner has already returned is modified when memory is reused for a later element", violation)
+	for _, res := range c08Analyse(r, m, q) {
+		c := "typestate@" + res.el.fi.Name() + " " + res.el.obj.Name()
+		if res.o1 != "" {
+			r.Bad(c, res.o1pos, "%s: an object the scanner has already returned is modified when memory is reused for a later element", res.o1)
 		} else {
-			r.OK(c, el.obj.Pos(), "on every path, after `%s` is appended to the object slice it is re-pointed at a fresh allocation before anything writes through it (fixpoint over %d blocks, loop heads included)", el.obj.Name(), len(g.Blocks))
+			r.OK(c, res.el.obj.Pos(), "on every path, after `%s` is appended to the object slice it is re-pointed at a fresh allocation before anything writes through it (typestate fixpoint over %d block visits, callees inlined, loop heads included)", res.el.obj.Name(), res.nblk)
 		}
 	}
 }
 
-// c08CallEffects: calls inside e that pass x to an in-package function writing through that parameter.
-func c08CallEffects(r *core.R, m *pbfModel, e ast.Node, x types.Object, esc bool, violation *string, vpos *token.Pos) bool {
-	info := m.info
-	ast.Inspect(e, func(n ast.Node) bool {
-		call, ok := n.(*ast.CallExpr)
-		if !ok {
-			return true
+func c08O2(r *core.R) {
+	m := c01PBFModel(r)
+	if m == nil {
+		return
+	}
+	q := c08QField(r, m)
+	if q == nil {
+		return
+	}
+	for _, res := range c08Analyse(r, m, q) {
+		c := "reset@" + res.el.fi.Name() + " " + res.el.obj.Name()
+		if res.o2 != "" {
+			r.Bad(c, res.o2pos, "%s", res.o2)
+		} else {
+			r.OK(c, res.el.obj.Pos(), "on every path on which `%s` is decoded into but not handed to the consumer, it is completely reset by a whole-struct literal (Visible: true; only [:0] re-slices of its own slices kept) before the next element is decoded into it", res.el.obj.Name())
 		}
-		fn := callee(info, call)
-		if fn == nil || fn.Pkg() != m.pk.Types {
-			return true
-		}
-		for i, a := range call.Args {
-			if objOf(info, a) == x && esc && c08WritesThroughParam(m, fn, i, 0) {
-				*violation, *vpos = "`"+src(r.P.Fset, call)+"` decodes into `"+x.Name()+"` after it was appended to the block's object slice", call.Pos()
-			}
-		}
-		return true
-	})
-	return esc
+	}
 }
 
 // c08IsFreshAlloc: &T{...} or new(T). Slices inside the literal may refer to x only via x.F[:0]; the caller checks escaped-ness.
@@ -308,6 +270,43 @@ func c08IsFreshAlloc(info *types.Info, e ast.Expr, x types.Object) bool {
 	}
 	if call, ok := e.(*ast.CallExpr); ok && builtinName(info, call) == "new" {
 		return true
+	}
+	// an allocation helper: a function without element arguments every return of which is a fresh allocation
+	if call, ok := e.(*ast.CallExpr); ok {
+		if fn := callee(info, call); fn != nil && fn.Pkg() != nil {
+			if pk := c01Pkgs[fn.Pkg()]; pk != nil {
+				if tf := c01FuncInfo(pk, fn); tf != nil && fn.Type().(*types.Signature).Results().Len() == 1 {
+					for _, a := range call.Args {
+						if x != nil && usesObj(info, a, x) {
+							return false
+						}
+					}
+					n, all := 0, true
+					ast.Inspect(tf.Decl.Body, func(y ast.Node) bool {
+						if _, isLit := y.(*ast.FuncLit); isLit {
+							return false
+						}
+						if ret, isRet := y.(*ast.ReturnStmt); isRet {
+							n++
+							if len(ret.Results) != 1 {
+								all = false
+								return true
+							}
+							r0 := ast.Unparen(ret.Results[0])
+							if c2, isCall := r0.(*ast.CallExpr); isCall && callee(info, c2) == fn {
+								all = false // recursion
+								return true
+							}
+							if !c08IsFreshAlloc(info, r0, nil) {
+								all = false
+							}
+						}
+						return true
+					})
+					return n > 0 && all
+				}
+			}
+		}
 	}
 	return false
 }
@@ -346,144 +345,39 @@ func c08ReturnsParam(m *pbfModel, call *ast.CallExpr, x types.Object) bool {
 			if id, isId := r0.(*ast.Ident); isId && (id.Name == "nil" || info.Uses[id] == po) {
 				return true
 			}
+			if c08IsFreshAlloc(info, r0, po) {
+				return true // hands back a fresh element instead (the old one went to the consumer)
+			}
 			ok = false
 		}
 		// the parameter may only be re-pointed at a fresh allocation under a nil test
 		if as, isAs := n.(*ast.AssignStmt); isAs {
 			for i, l := range as.Lhs {
 				if id, isId := ast.Unparen(l).(*ast.Ident); isId && info.Uses[id] == po {
-					if i >= len(as.Rhs) || !c08IsFreshAlloc(info, as.Rhs[i], po) {
-						ok = false
+					var rh ast.Expr
+					if len(as.Rhs) == len(as.Lhs) {
+						rh = as.Rhs[i]
+					} else if len(as.Rhs) == 1 && i == 0 {
+						rh = as.Rhs[0]
 					}
+					if rh == nil {
+						ok = false
+						continue
+					}
+					if c08IsFreshAlloc(info, rh, po) {
+						continue
+					}
+					// p, err = g(.., p): g hands back its parameter or a fresh element
+					if c2, isCall := ast.Unparen(rh).(*ast.CallExpr); isCall && callee(info, c2) != fn && c08ReturnsParam(m, c2, po) {
+						continue
+					}
+					ok = false
 				}
 			}
 		}
 		return true
 	})
 	return ok
-}
-
-func c08O2(r *core.R) {
-	m := modelOrAnchor(r)
-	if m == nil {
-		return
-	}
-	q := c08QField(r, m)
-	if q == nil {
-		return
-	}
-	info := m.info
-	for _, el := range c08Tracked(m, q) {
-		c := "reset@" + el.fi.Name() + " " + el.obj.Name()
-		par := parentsOf(r.P, el.fi)
-		// the accept/reject if: the IfStmt whose body appends x to q
-		var ifs *ast.IfStmt
-		ast.Inspect(el.fi.Decl.Body, func(n ast.Node) bool {
-			as, ok := n.(*ast.AssignStmt)
-			if !ok || len(as.Lhs) != 1 || fieldOf(info, as.Lhs[0]) != q {
-				return true
-			}
-			if call, ok := as.Rhs[0].(*ast.CallExpr); ok && builtinName(info, call) == "append" && len(call.Args) == 2 && objOf(info, call.Args[1]) == el.obj {
-				if blk, ok := par[as].(*ast.BlockStmt); ok {
-					if i, ok := par[blk].(*ast.IfStmt); ok && i.Body == blk {
-						ifs = i
-					}
-				}
-			}
-			return true
-		})
-		if ifs == nil {
-			r.Unknown(c, el.obj.Pos(), "append of `%s` is not in the accept branch of an if statement", el.obj.Name())
-			continue
-		}
-		elseBlk, _ := ifs.Else.(*ast.BlockStmt)
-		if elseBlk == nil {
-			r.Bad(c, ifs.Pos(), "a rejected element is not reset (no else branch): its fields leak into the next element decoded into the same memory")
-			continue
-		}
-		// find `*x = T{...}` in the else branch
-		var lit *ast.CompositeLit
-		var reset *ast.AssignStmt
-		otherWrites := 0
-		for _, st := range elseBlk.List {
-			as, ok := st.(*ast.AssignStmt)
-			if !ok {
-				continue
-			}
-			for i, l := range as.Lhs {
-				if se, ok := ast.Unparen(l).(*ast.StarExpr); ok && objOf(info, se.X) == el.obj && i < len(as.Rhs) {
-					if cl, ok := ast.Unparen(as.Rhs[i]).(*ast.CompositeLit); ok {
-						lit, reset = cl, as
-					}
-				} else if rootObj(info, l) == el.obj {
-					if _, isId := ast.Unparen(l).(*ast.Ident); !isId {
-						otherWrites++
-					}
-				}
-			}
-		}
-		if lit == nil {
-			r.Bad(c, elseBlk.Pos(), "the reject branch does not assign a whole struct literal to `*%s`: fields decoded for the rejected element (id, metadata, tags, members) survive into the next element, whose absent optional fields then inherit them", el.obj.Name())
-			continue
-		}
-		if otherWrites > 0 {
-			r.Bad(c, reset.Pos(), "the reject branch writes individual fields besides the whole-struct reset")
-			continue
-		}
-		// every value in the literal: constant, or S[:0] where S is x.F or a local assigned from x.F in this branch
-		bad := ""
-		hasVisible := false
-		for _, e := range lit.Elts {
-			kv, ok := e.(*ast.KeyValueExpr)
-			if !ok {
-				bad = "positional literal"
-				break
-			}
-			key := kv.Key.(*ast.Ident).Name
-			if tv, ok := info.Types[kv.Value]; ok && tv.Value != nil {
-				if key == "Visible" && tv.Value.String() == "true" {
-					hasVisible = true
-				}
-				continue
-			}
-			se, ok := ast.Unparen(kv.Value).(*ast.SliceExpr)
-			if !ok || se.Low != nil || se.High == nil || se.Max != nil {
-				bad = key + ": `" + src(r.P.Fset, kv.Value) + "` is carried over unchanged"
-				break
-			}
-			if v, okc := constInt(info, se.High); !okc || v != 0 {
-				bad = key + ": `" + src(r.P.Fset, kv.Value) + "` keeps old contents"
-				break
-			}
-			// source of the slice
-			srcOK := false
-			if rootObj(info, se.X) == el.obj {
-				if f := fieldOf(info, se.X); f != nil && f.Name() == key {
-					srcOK = true
-				}
-			} else if lo := objOf(info, se.X); lo != nil {
-				for _, st := range elseBlk.List {
-					if as, ok := st.(*ast.AssignStmt); ok && len(as.Lhs) == 1 && len(as.Rhs) == 1 && objOf(info, as.Lhs[0]) == lo && as.Pos() < reset.Pos() {
-						if f := fieldOf(info, as.Rhs[0]); f != nil && f.Name() == key && rootObj(info, as.Rhs[0]) == el.obj {
-							srcOK = true
-						}
-					}
-				}
-			}
-			if !srcOK {
-				bad = key + ": `" + src(r.P.Fset, kv.Value) + "` is not a [:0] re-slice of this element's own " + key
-				break
-			}
-		}
-		switch {
-		case bad != "":
-			r.Bad(c, reset.Pos(), "reset literal `%s`: %s", src(r.P.Fset, lit), bad)
-		case !hasVisible:
-			r.Bad(c, reset.Pos(), "reset literal `%s` does not restore the format default Visible: true: an element after a rejected one that carries no visible flag would be reported as deleted", src(r.P.Fset, lit))
-		default:
-			r.OK(c, reset.Pos(), "`%s`: whole-struct reset with Visible: true; only [:0] re-slices of the rejected (owned) element's own slices are kept", src(r.P.Fset, reset))
-		}
-	}
 }
 
 // c08Kinds derives group field number -> (descriptor field name, element kind) from the generated PrimitiveGroup struct tags.
@@ -525,346 +419,8 @@ func sliceElem(t types.Type) types.Type {
 	return t
 }
 
-func c08O3(r *core.R) {
-	m := modelOrAnchor(r)
-	if m == nil {
-		return
-	}
-	q := c08QField(r, m)
-	if q == nil {
-		return
-	}
-	info := m.info
-	kinds := c08Kinds(m)
-	if len(kinds) < 4 {
-		r.Anchor("PrimitiveGroup descriptor (generated struct tags)")
-		return
-	}
-	// group scanner: the worker-role function whose message loop tests FieldNumber against 2,3,4 with Skip flags
-	var gs *FuncInfo
-	for _, u := range m.sortedUnits() {
-		fd, ok := u.node.(*ast.FuncDecl)
-		if !ok || !u.roles["worker"] {
-			continue
-		}
-		n := 0
-		ast.Inspect(fd.Body, func(x ast.Node) bool {
-			if f := fieldOf(info, nodeExpr(x)); f != nil && strings.HasPrefix(f.Name(), "Skip") && namedPath(selRecv(info, x)) == namedPath(m.scannerT) {
-				n++
-			}
-			return true
-		})
-		if n >= 3 {
-			gs = u.fi
-		}
-	}
-	if gs == nil {
-		r.Anchor("function dispatching on primitive group fields with the skip flags")
-		return
-	}
-	g := newCFG(info, gs.Decl.Body)
-	// the loop and the FieldNumber variable
-	var loop *ast.ForStmt
-	ast.Inspect(gs.Decl.Body, func(n ast.Node) bool {
-		if fs, ok := n.(*ast.ForStmt); ok && loop == nil {
-			loop = fs
-		}
-		return true
-	})
-	if loop == nil {
-		r.Anchor("message loop of " + gs.Name())
-		return
-	}
-	var fnVar types.Object
-	var msgObj types.Object
-	ast.Inspect(loop.Body, func(n ast.Node) bool {
-		if as, ok := n.(*ast.AssignStmt); ok && len(as.Lhs) == 1 && len(as.Rhs) == 1 {
-			if call, ok := as.Rhs[0].(*ast.CallExpr); ok && isMethod(callee(info, call), "github.com/paulmach/protoscan.Message", "FieldNumber") {
-				fnVar = objOf(info, as.Lhs[0])
-				msgObj = rootObj(info, call.Fun.(*ast.SelectorExpr).X)
-			}
-		}
-		return true
-	})
-	if fnVar == nil {
-		r.Anchor("variable holding msg.FieldNumber() in " + gs.Name())
-		return
-	}
-	covered := map[int64]bool{}
-	for _, st := range loop.Body.List {
-		ifs, ok := st.(*ast.IfStmt)
-		if !ok {
-			continue
-		}
-		// cond: fn == K && !dec.scanner.SkipX
-		var k int64 = -1
-		var flag *types.Var
-		okForm := true
-		var conj []ast.Expr
-		var split func(e ast.Expr)
-		split = func(e ast.Expr) {
-			e = ast.Unparen(e)
-			if be, ok := e.(*ast.BinaryExpr); ok && be.Op == token.LAND {
-				split(be.X)
-				split(be.Y)
-				return
-			}
-			conj = append(conj, e)
-		}
-		split(ifs.Cond)
-		for _, cj := range conj {
-			if be, ok := cj.(*ast.BinaryExpr); ok && be.Op == token.EQL && objOf(info, be.X) == fnVar {
-				if v, okc := constInt(info, be.Y); okc {
-					k = v
-					continue
-				}
-			}
-			if ue, ok := cj.(*ast.UnaryExpr); ok && ue.Op == token.NOT {
-				if f := fieldOf(info, ue.X); f != nil && namedPath(selRecv(info, ast.Unparen(ue.X))) == namedPath(m.scannerT) {
-					flag = f
-					continue
-				}
-			}
-			okForm = false
-		}
-		if k < 0 {
-			continue
-		}
-		kind, known := kinds[k]
-		if !known {
-			continue
-		}
-		c := fmt.Sprintf("field %d (%s)@%s", k, kind, gs.Name())
-		if flag == nil {
-			// field 1 (plain nodes) is rejected with an error, not skipped: accepted when the body returns an error
-			if len(ifs.Body.List) == 1 {
-				if ret, ok := ifs.Body.List[0].(*ast.ReturnStmt); ok && len(ret.Results) == 1 {
-					r.OKTrivial(c+" unsupported", ifs.Pos(), "field %d is rejected with an error (C06.E7)", k)
-					covered[k] = true
-					continue
-				}
-			}
-			r.Bad(c+" flag", ifs.Pos(), "`%s` decodes group field %d without testing a skip flag", src(r.P.Fset, ifs.Cond), k)
-			continue
-		}
-		covered[k] = true
-		if !okForm {
-			r.Unknown(c+" flag", ifs.Pos(), "guard `%s` is not of the form `fn == K && !scanner.SkipX`", src(r.P.Fset, ifs.Cond))
-			continue
-		}
-		if flag.Name() == "Skip"+kind+"s" {
-			r.OK(c+" flag", ifs.Pos(), "group field %d (%s in the descriptor) is decoded only when !%s", k, kind, flag.Name())
-		} else {
-			r.Bad(c+" flag", ifs.Pos(), "group field %d holds %ss but is guarded by %s: setting Skip%ss does not skip them (and %s skips the wrong kind)", k, kind, flag.Name(), kind, flag.Name())
-		}
-		// decode call, filter, append for this kind
-		c08CheckKindBranch(r, m, q, gs, ifs.Body, kind, c)
-	}
-	for k, kind := range kinds {
-		if !covered[k] {
-			r.Bad(fmt.Sprintf("field %d (%s)@%s", k, kind, gs.Name()), loop.Pos(), "no branch for group field %d (%s)", k, kind)
-		}
-	}
-	// skipped fields are passed over: from each kind-if's false edge, every path back to the loop head passes msg.Skip() or another kind branch's body
-	c := "skip@" + gs.Name()
-	isSkip := func(n ast.Node) bool {
-		found := false
-		ast.Inspect(n, func(x ast.Node) bool {
-			if call, ok := x.(*ast.CallExpr); ok && isMethod(callee(info, call), "github.com/paulmach/protoscan.Message", "Skip") && rootObj(info, call.Fun.(*ast.SelectorExpr).X) == msgObj {
-				found = true
-			}
-			return !found
-		})
-		return found
-	}
-	isConsume := func(n ast.Node) bool {
-		found := false
-		ast.Inspect(n, func(x ast.Node) bool {
-			if call, ok := x.(*ast.CallExpr); ok {
-				if fn := callee(info, call); fn != nil && (isMethod(fn, "github.com/paulmach/protoscan.Message", "MessageData") || isMethod(fn, "github.com/paulmach/protoscan.Message", "Skip")) && rootObj(info, call.Fun.(*ast.SelectorExpr).X) == msgObj {
-					found = true
-				}
-			}
-			return !found
-		})
-		_ = isSkip
-		return found
-	}
-	// every cycle of the loop (loop body entry -> loop head) must pass a consuming call or leave the function
-	var head, body *cfg.Block
-	for _, b := range g.Blocks {
-		if b.Stmt == loop && b.Kind == cfg.KindForLoop {
-			head = b
-		}
-		if b.Stmt == loop && b.Kind == cfg.KindForBody {
-			body = b
-		}
-	}
-	if head == nil || body == nil {
-		r.Unknown(c, loop.Pos(), "loop blocks not found in the control-flow graph")
-		return
-	}
-	// search for a path body -> head avoiding consuming blocks
-	seen := map[*cfg.Block]bool{}
-	var dfs func(b *cfg.Block) bool
-	dfs = func(b *cfg.Block) bool {
-		if b == head {
-			return true
-		}
-		if seen[b] {
-			return false
-		}
-		seen[b] = true
-		for _, n := range b.Nodes {
-			if isConsume(n) {
-				return false
-			}
-			if _, ok := n.(*ast.ReturnStmt); ok {
-				return false
-			}
-		}
-		for _, s := range b.Succs {
-			if dfs(s) {
-				return true
-			}
-		}
-		return false
-	}
-	if dfs(body) {
-		r.Bad(c, loop.Pos(), "there is a path through the group loop that neither decodes the current field nor calls %s.Skip(): a skipped element kind (or an unknown field) is not passed over and the following fields are misparsed", msgObj.Name())
-	} else {
-		r.OK(c, loop.Pos(), "every cycle of the group loop either reads the field's message data, calls %s.Skip(), or leaves the function", msgObj.Name())
-	}
-}
-
-// c08CheckKindBranch: inside the branch for one kind: decode -> filter(kind)(elem) -> append, in that order.
-func c08CheckKindBranch(r *core.R, m *pbfModel, q *types.Var, gs *FuncInfo, body *ast.BlockStmt, kind, c string) {
-	info := m.info
-	// the function that actually contains the filter test may be this branch or a callee chain (dense nodes)
-	type site struct {
-		fi   *FuncInfo
-		body ast.Node
-	}
-	sites := []site{{gs, body}}
-	seenFn := map[*types.Func]bool{}
-	var collect func(n ast.Node, depth int)
-	collect = func(n ast.Node, depth int) {
-		ast.Inspect(n, func(x ast.Node) bool {
-			if call, ok := x.(*ast.CallExpr); ok && depth < 3 {
-				if fn := callee(info, call); fn != nil && fn.Pkg() == m.pk.Types && !seenFn[fn] {
-					seenFn[fn] = true
-					if fi := findFunc(m.pk, funcName(fn)); fi != nil {
-						sites = append(sites, site{fi, fi.Decl.Body})
-						collect(fi.Decl.Body, depth+1)
-					}
-				}
-			}
-			return true
-		})
-	}
-	collect(body, 0)
-	found := false
-	for _, s := range sites {
-		ast.Inspect(s.body, func(n ast.Node) bool {
-			ifs, ok := n.(*ast.IfStmt)
-			if !ok {
-				return true
-			}
-			// body appends an element to q
-			var elem types.Object
-			var appPos token.Pos
-			for _, st := range ifs.Body.List {
-				if as, ok := st.(*ast.AssignStmt); ok && len(as.Lhs) == 1 && fieldOf(info, as.Lhs[0]) == q {
-					if call, ok := as.Rhs[0].(*ast.CallExpr); ok && builtinName(info, call) == "append" && len(call.Args) == 2 {
-						elem = objOf(info, call.Args[1])
-						appPos = as.Pos()
-					}
-				}
-			}
-			if elem == nil {
-				return true
-			}
-			found = true
-			et := namedPath(elem.Type())
-			if et != core.ModulePath+"."+kind {
-				r.Bad(c+" type", appPos, "the branch for %ss appends a %s", kind, et)
-				return true
-			}
-			// cond: F == nil || F(elem)
-			be, ok := ast.Unparen(ifs.Cond).(*ast.BinaryExpr)
-			okCond := false
-			var why string
-			if ok && be.Op == token.LOR {
-				nilT, _ := ast.Unparen(be.X).(*ast.BinaryExpr)
-				call, _ := ast.Unparen(be.Y).(*ast.CallExpr)
-				if nilT != nil && call != nil && nilT.Op == token.EQL {
-					f1 := fieldOf(info, nilT.X)
-					f2 := fieldOf(info, call.Fun)
-					id, _ := ast.Unparen(nilT.Y).(*ast.Ident)
-					switch {
-					case f1 == nil || f2 == nil || id == nil || id.Name != "nil":
-						why = "not `F == nil || F(x)`"
-					case f1 != f2:
-						why = "the nil test and the call use different filter fields (" + f1.Name() + ", " + f2.Name() + ")"
-					case f1.Name() != "Filter"+kind:
-						why = "uses " + f1.Name() + " for a " + kind
-					case len(call.Args) != 1 || objOf(info, call.Args[0]) != elem:
-						why = "the filter is not applied to the element that is appended"
-					default:
-						okCond = true
-					}
-				} else {
-					why = "not `F == nil || F(x)`"
-				}
-			} else {
-				why = "condition `" + src(r.P.Fset, ifs.Cond) + "` is not `F == nil || F(x)` (a nil filter must accept everything)"
-			}
-			if !okCond {
-				r.Bad(c+" filter", ifs.Pos(), "accept test of %ss: %s", kind, why)
-				return true
-			}
-			// the filter is evaluated after the element was decoded: in the same block list, a decode statement precedes the if
-			par := parentsOf(r.P, s.fi)
-			decoded := false
-			if blk, ok := par[ifs].(*ast.BlockStmt); ok {
-				for _, st := range blk.List {
-					if st.Pos() >= ifs.Pos() {
-						break
-					}
-					ast.Inspect(st, func(x ast.Node) bool {
-						if as, ok := x.(*ast.AssignStmt); ok {
-							for _, l := range as.Lhs {
-								if rootObj(info, l) == elem {
-									decoded = true
-								}
-							}
-						}
-						if call, ok := x.(*ast.CallExpr); ok {
-							for _, a := range call.Args {
-								if objOf(info, a) == elem {
-									decoded = true
-								}
-							}
-						}
-						return true
-					})
-				}
-			}
-			if !decoded {
-				r.Bad(c+" filter", ifs.Pos(), "the filter for %ss is evaluated before the element is decoded in this iteration: it sees the previous (or an empty) element", kind)
-				return true
-			}
-			r.OK(c+" filter", ifs.Pos(), "`%s` applies %s to the decoded element after decoding and before `append`", src(r.P.Fset, ifs.Cond), "Filter"+kind)
-			return true
-		})
-	}
-	if !found {
-		r.Bad(c+" filter", body.Pos(), "no accept test that appends a %s to the object slice is reachable from this branch", kind)
-	}
-}
-
 func c08O4(r *core.R) {
-	m := modelOrAnchor(r)
+	m := c01PBFModel(r)
 	if m == nil {
 		return
 	}
@@ -931,7 +487,7 @@ func c08IsElemSlice(t types.Type) bool {
 }
 
 func c08O5(r *core.R) {
-	m := modelOrAnchor(r)
+	m := c01PBFModel(r)
 	if m == nil {
 		return
 	}
@@ -992,28 +548,10 @@ func c08O5(r *core.R) {
 					return true
 				}
 				nIdx++
-				// the indexed slice must be assigned from make(...) in this function (possibly under a len==0 test) and nowhere else
-				okMake := false
-				otherDef := false
-				ast.Inspect(fd.Body, func(x ast.Node) bool {
-					a2, ok := x.(*ast.AssignStmt)
-					if !ok {
-						return true
-					}
-					for i, l := range a2.Lhs {
-						if !sameExpr(info, l, e.X) || i >= len(a2.Rhs) {
-							continue
-						}
-						if call, ok := a2.Rhs[i].(*ast.CallExpr); ok && builtinName(info, call) == "make" {
-							okMake = true
-						} else if len(a2.Rhs) == len(a2.Lhs) {
-							otherDef = true
-						}
-					}
-					return true
-				})
-				if !okMake || otherDef {
-					bad, bpos = "`"+src(r.P.Fset, as)+"` assigns a single field of an element of `"+src(r.P.Fset, e.X)+"`, which is not (only) a zeroed make in this function: the element's other fields keep whatever the storage held before", as.Pos()
+				// every definition of the indexed storage (the element's slice field anywhere in the worker role, or the
+				// local slice in this function) must be a zeroed make, nil, a [:0] re-slice or an append of whole elements
+				if ok, why := c08StorageDefsZeroed(r, m, u.fi, e.X); !ok {
+					bad, bpos = "`"+src(r.P.Fset, as)+"` assigns a single field of an element of `"+src(r.P.Fset, e.X)+"`, whose storage is not only ever freshly made (zeroed): "+why+"; the element's other fields keep whatever the storage held before", as.Pos()
 				}
 			}
 			return true
@@ -1027,4 +565,38 @@ func c08O5(r *core.R) {
 			r.OK(c, fd.Pos(), "%d re-slices (all [:0]), %d appends of whole elements, %d field writes into storage made (zeroed) in this function", nSlice, nApp, nIdx)
 		}
 	}
+}
+
+// c08IsZeroedMake: call yields freshly made (zeroed) storage: `make(...)` itself, or a function of the package every
+// return of which is such a call (an extracted allocation helper).
+func c08IsZeroedMake(m *pbfModel, call *ast.CallExpr, depth int) bool {
+	info := m.info
+	if builtinName(info, call) == "make" {
+		return true
+	}
+	tf := c01Callee(m.pk, call)
+	if tf == nil || depth > 2 {
+		return false
+	}
+	ok, n := true, 0
+	ast.Inspect(tf.Decl.Body, func(x ast.Node) bool {
+		if _, isLit := x.(*ast.FuncLit); isLit {
+			return false
+		}
+		ret, isRet := x.(*ast.ReturnStmt)
+		if !isRet {
+			return true
+		}
+		n++
+		if len(ret.Results) != 1 {
+			ok = false
+			return true
+		}
+		c2, isCall := ast.Unparen(c01Expand(info, tf.Decl.Body, ret.Results[0])).(*ast.CallExpr)
+		if !isCall || !c08IsZeroedMake(m, c2, depth+1) {
+			ok = false
+		}
+		return true
+	})
+	return ok && n > 0
 }
